@@ -94,10 +94,17 @@ func instrumentYields(path string) []byte {
 func addYieldOverlay(ov map[string]string, scratch string, dirs []string) int {
 	count := 0
 	for _, d := range dirs {
+		only := "" // an entry may name a single file
+		if strings.HasSuffix(d, ".go") {
+			d, only = filepath.Dir(d), filepath.Base(d)
+		}
 		dir := filepath.Join(repoRoot, d)
 		ents, _ := os.ReadDir(dir)
 		for _, e := range ents {
 			name := e.Name()
+			if only != "" && name != only {
+				continue
+			}
 			if !strings.HasSuffix(name, ".go") || strings.HasSuffix(name, "_test.go") || strings.HasPrefix(name, "zz_vf") {
 				continue
 			}
